@@ -16,7 +16,10 @@ R_TABLES = [(r'\bgs\s*\.\s*removeTopPotBreak\s*\(\s*\)', r'w_removeTopPotBreak(&
 R_GEN = [(r'\bgen_ast\s*\(\s*gs\s*\)', r'w_gen_ast(&gs)'),
          (r'\bgs\s*\.\s*popSymbols\s*\(\s*([^()]+?)\s*\)', r'w_popSymbols(&gs, \1)'),
          (r'\bgs\s*\.\s*backpatch\s*\(\s*\)', r'w_backpatch(&gs)'),
-         (r'\bgs\s*\.\s*pushSymbols\s*\(\s*', r'w_pushSymbols(&gs, ')]
+         # N12: the generator state is a local: its address goes to the ghost handle, and the model containers reserve their
+         # storage up front (their lazy allocation cannot happen inside a callee that is replaced by a contract)
+         (r'\bGenState\s+gs\s*;', 'GenState gs; __verif_gen_state(&gs); gs.out.code._reserve(); gs.errors._reserve(); gs.symbols._reserve(); gs.labels._reserve(); '
+                                   'gs.backpatching_todo._reserve(); gs.out.stack_maps._reserve(); gs.funcAddrs._reserve();')]
 PLANS = {
     'dispatchVoid': ('dispatchVoid', R_DISPATCHERS + R_VOID_REC + R_TABLES),
     'gen_ast': ('gen_ast', R_VOID),
@@ -26,14 +29,13 @@ EXTRA_DECLS = '''
 extern "C" {
 void w_dispatchVoid_rec(void *p, void *c); void w_dispatchLoop(void *p, void *c); void w_dispatchWhile(void *p, void *c); void w_dispatchIf(void *p, void *c);
 void w_dispatchGoto(void *p, void *c); void w_dispatchMark(void *p, void *c); void w_dispatchAssign(void *p, void *c); void w_removeTopPotBreak(void *p);
-void w_gen_ast(void *p); void w_backpatch(void *p); void w_pushSymbols(void *p, std::string name);
+void w_gen_ast(void *p); void w_backpatch(void *p); void __verif_gen_state(void *gs);
 }
 '''
 EXTRA_WRAPPERS = '''
 extern "C" {
 void w_dispatchVoid_rec(void *p, void *c) { w_dispatchVoid(p, c); }
 void w_gen_ast(void *p) { gen_ast(*(GenState *)p); }
-void w_pushSymbols(void *p, std::string name) { ((GenState *)p)->pushSymbols(name); }
 void w_gen(void *in, void *out) { *(Theo::CodegenResult *)out = Theo::gen(*(Theo::AST *)in); }
 }
 '''
